@@ -281,6 +281,220 @@ def handleFetch (withTrace : Bool) (args : List String) : Option String :=
     | none => some "bad-op"
   | _ => some "bad-op"
 
+
+/-! ## two concurrent FetchKeys calls on one DirectKeyFetcher
+
+op line:  conc.fetch2  <cfg>  <plan>  <impl outcome>      (see harness/conc_fetch.go)
+  plan    A / B start caller A / B;  p q r s / P Q R S release caller A's / B's pending call for server 0..3;
+          x / y cancel caller A's / B's context;  afterwards everything pending is released
+  outcome <trace>#<A's results>#<B's results>
+
+Model: the two calls are independent (`Fetch.Two`): each caller is a `Fetch.State` of its own; a cancelled caller's client
+answers `Two.failing`.  Specification (the property: "yields for every caller the result a sequential execution would
+give", "never deadlocks", "exactly the union of the per-server results that succeeded"): a caller whose context is never
+cancelled gets `specMap` — whatever the other caller does, including being cancelled; a caller that is cancelled gets a
+part of it (which part depends on when the cancellation arrives: only "no foreign entry" is demanded). -/
+
+structure Caller2 where
+  started : Bool := false
+  cancelled : Bool := false
+  st : Fetch.State
+
+open Fetch in
+def cfgOf2 (c : Cfg) (k : Caller2) : Cfg := if k.cancelled then Two.failing c else c
+
+open Fetch in
+def pendingCalls (s : State) : Nat :=
+  s.workers.countP (fun pc => match pc with | .fetch _ => true | .notary _ => true | _ => false)
+
+open Fetch in
+def fetch2Move (c : Cfg) (n : Nat) (ka kb : Caller2) (ch : Char) : Caller2 × Caller2 × String :=
+  let upd (g : Nat) (k : Caller2) : Caller2 × Caller2 := if g == 0 then (k, kb) else (ka, k)
+  let start (g : Nat) : Caller2 × Caller2 × String :=
+    let k := if g == 0 then ka else kb
+    if k.started then (ka, kb, "-") else
+    let c' := cfgOf2 c k
+    let s0 := startAll c' (init c' (byServerKeys c'))
+    let s1 := if k.cancelled then fetchFinish c' n (n + 2) s0 else s0
+    let (a, b) := upd g { k with started := true, st := s1 }
+    (a, b, (if g == 0 then "A" else "B") ++ toString (pendingCalls s1))
+  let rel (g i : Nat) : Caller2 × Caller2 × String :=
+    let k := if g == 0 then ka else kb
+    if !k.started || k.cancelled then (ka, kb, "-") else
+    let (s', o) := release c k.st s!"s{i}"
+    let (a, b) := upd g { k with st := s' }
+    (a, b, o)
+  let cancel (g : Nat) : Caller2 × Caller2 × String :=
+    let k := if g == 0 then ka else kb
+    let running := k.started && k.st.wait != 0
+    let k' : Caller2 := { k with cancelled := true }
+    let k'' : Caller2 := if running then { k' with st := fetchFinish (Two.failing c) n (n + 2) k.st } else k'
+    let (a, b) := upd g k''
+    (a, b, (if g == 0 then "x" else "y") ++ (if running then "." else "-"))
+  if ch == 'A' then start 0 else if ch == 'B' then start 1
+  else if ch == 'x' then cancel 0 else if ch == 'y' then cancel 1
+  else if 'p' ≤ ch ∧ ch ≤ 's' then rel 0 (ch.toNat - 'p'.toNat)
+  else if 'P' ≤ ch ∧ ch ≤ 'S' then rel 1 (ch.toNat - 'P'.toNat)
+  else (ka, kb, "?")
+
+open Fetch in
+def fetch2Result (c : Cfg) (n : Nat) (k : Caller2) : String :=
+  if !k.started then "-" else
+  let c' := cfgOf2 c k
+  match step c' (fetchFinish c' n (n + 2) k.st) .main with
+  | some s => showResults s.results ++ (if s.negWait then "!negative-waitgroup" else "")
+  | none => "stuck"
+
+open Fetch in
+def fetch2Model (srvs : List SrvCfg) (plan : List Char) : String :=
+  let c := fetchCfg srvs
+  let n := srvs.length
+  let k0 : Caller2 := { st := init c [] }
+  let (ka, kb, tr) := plan.foldl (fun (acc : Caller2 × Caller2 × String) ch =>
+      let (a, b, o) := fetch2Move c n acc.1 acc.2.1 ch
+      (a, b, acc.2.2 ++ o)) (k0, k0, "")
+  tr ++ "#" ++ fetch2Result c n ka ++ "#" ++ fetch2Result c n kb
+
+open Fetch in
+def fetch2Spec (srvs : List SrvCfg) (plan : List Char) (impl : String) : String :=
+  match impl.splitOn "#" with
+  | [tr, ra, rb] =>
+    let want := showResults (specMap (fetchCfg srvs))
+    let wantEntries := if want == "" then [] else want.splitOn ","
+    let judge (start cancel : Char) (r : String) : String :=
+      if !plan.contains start then "-"
+      else if !plan.contains cancel then want
+      else if r == "" || (r.splitOn ",").all (fun e => wantEntries.contains e) then r
+      else "violates:cancelled-caller-holds-an-entry-no-server-gave"
+    tr ++ "#" ++ judge 'A' 'x' ra ++ "#" ++ judge 'B' 'y' rb
+  | _ => "violates:no-result(a caller did not return)"
+
+def handleFetch2 (args : List String) : Option String :=
+  match args with
+  | [cfg, plan, impl] =>
+    match (cfg.splitOn ";").mapM parseSrv with
+    | some srvs =>
+      if srvs.length > 4 then some "bad-op" else
+      some (fetch2Model srvs plan.toList ++ "\t" ++ fetch2Spec srvs plan.toList impl)
+    | none => some "bad-op"
+  | _ => some "bad-op"
+
+/-! ## getTransport / reaper through time
+
+op line:  conc.transport  <script>  <impl trace>        (see harness/conc_transport.go)
+  script  `,`-separated: g<n> getTransport(n) | i<n> n's transport idle for 2 x lifetime | j<n> idle for lifetime - 1 min | R reaper pass
+  trace   g<n>=<id>[names] | i<n>:<0|1>[names] | j<n>:<0|1>[names] | R[names]  joined by `|`; `H` = the move did not finish
+
+Model: `Transport.trun` — every call is one region under transportsMutex, so the run is the sequence of its regions; the
+reaper's `dead` predicate is "marked idle since its last use".  Specification, evaluated on the implementation's trace:
+every move finishes (no deadlock); the cached names never repeat; getTransport returns the cached transport of that name
+if there is one and a fresh one otherwise, and the name is cached afterwards; a reaper pass removes exactly the transports
+idle for longer than the lifetime. -/
+
+open Fetch.Transport in
+structure TrSt where
+  s : TState
+  idle : List String
+
+def showNames (l : List String) : String := "[" ++ String.intercalate "," (sortStrs l) ++ "]"
+
+open Fetch.Transport in
+def transportMove (st : TrSt) (mv : String) : Option (TrSt × String) :=
+  let names (s : TState) := showNames (s.transports.map (·.1))
+  match mv.toList with
+  | ['R'] =>
+    let s' := tstep st.s (.reap (fun n => st.idle.contains n))
+    some (⟨s', []⟩, "R" ++ names s')
+  | ['g', c] =>
+    let n := String.singleton c
+    let s' := tstep st.s (.get 0 n)
+    let id := match s'.got.head? with | some (_, _, id) => id | none => 0
+    some (⟨s', st.idle.filter (· != n)⟩, s!"g{n}={id}" ++ names s')
+  | ['i', c] =>
+    let n := String.singleton c
+    let present := (tget n st.s.transports).isSome
+    some (⟨st.s, if present then n :: st.idle else st.idle⟩, s!"i{n}:" ++ (if present then "1" else "0") ++ names st.s)
+  | ['j', c] =>
+    let n := String.singleton c
+    let present := (tget n st.s.transports).isSome
+    some (st, s!"j{n}:" ++ (if present then "1" else "0") ++ names st.s)
+  | _ => none
+
+open Fetch.Transport in
+def transportModel (script : String) : String :=
+  let rec go : List String → TrSt → List String → String
+    | [], _, acc => String.intercalate "|" acc.reverse
+    | mv :: rest, st, acc =>
+      match transportMove st mv with
+      | none => "bad-op"
+      | some (st', o) => go rest st' (o :: acc)
+  go (script.splitOn ",") ⟨tinit, []⟩ []
+
+/-- the specification's own bookkeeping while it reads the implementation's trace -/
+structure TrSpec where
+  cached : List (String × Nat)     -- name ↦ transport, as the trace so far says
+  idle : List String
+  maxId : Option Nat
+
+def trSpecMove (st : TrSpec) (mv obs : String) : TrSpec × Option String :=
+  match obs.splitOn "[" with
+  | [hd, ks] =>
+    let keys := if ks == "]" then [] else ((ks.dropEnd 1).toString.splitOn ",")
+    if hasDup keys then (st, some "duplicate-name") else
+    let sameNames (want : List String) : Bool := sortStrs want == sortStrs keys
+    match mv.toList with
+    | ['R'] =>
+      let keep := st.cached.filter (fun p => !st.idle.contains p.1)
+      if hd != "R" then (st, some "bad-trace")
+      else if !sameNames (keep.map (·.1)) then
+        (st, some (if keys.any (fun k => st.idle.contains k) then "idle-transport-not-reaped" else "live-transport-reaped"))
+      else (⟨keep, [], st.maxId⟩, none)
+    | ['g', c] =>
+      let n := String.singleton c
+      match hd.splitOn "=" with
+      | [lhs, ids] =>
+        match ids.toNat? with
+        | none => (st, some "bad-trace")
+        | some id =>
+          if lhs != s!"g{n}" then (st, some "bad-trace") else
+          let fresh := match st.maxId with | none => true | some m => decide (id > m)
+          let st' : TrSpec := ⟨(st.cached.filter (·.1 != n)) ++ [(n, id)], st.idle.filter (· != n),
+                              some (match st.maxId with | none => id | some m => max m id)⟩
+          match st.cached.find? (·.1 == n) with
+          | some (_, t) => if id != t then (st', some "another-transport-for-a-cached-name")
+                           else if !sameNames (st.cached.map (·.1)) then (st', some "cache-changed-by-a-hit") else (st', none)
+          | none => if !fresh then (st', some "transport-of-another-name-returned")
+                    else if !sameNames (n :: st.cached.map (·.1)) then (st', some "new-transport-not-cached") else (st', none)
+      | _ => (st, some "bad-trace")
+    | [k, c] =>
+      let n := String.singleton c
+      let present := (st.cached.find? (·.1 == n)).isSome
+      if k != 'i' && k != 'j' then (st, some "bad-trace")
+      else if hd != s!"{k}{n}:" ++ (if present then "1" else "0") then (st, some "cached-transport-not-found")
+      else if !sameNames (st.cached.map (·.1)) then (st, some "cache-changed")
+      else (⟨st.cached, if k == 'i' && present then n :: st.idle else st.idle, st.maxId⟩, none)
+    | _ => (st, some "bad-trace")
+  | _ => (st, some (if obs == "H" || obs.endsWith "H" then "a-move-never-finished(deadlock)" else "bad-trace"))
+
+def trSpecLoop : List String → List String → Nat → TrSpec → Option String
+  | [], [], _, _ => none
+  | _ :: _, [], i, _ => some s!"violates:incomplete-trace@move{i}"
+  | [], _ :: _, i, _ => some s!"violates:bad-trace@move{i}"
+  | mv :: ms, o :: os, i, st =>
+    match trSpecMove st mv o with
+    | (_, some why) => some s!"violates:{why}@move{i}"
+    | (st', none) => trSpecLoop ms os (i + 1) st'
+
+def transportSpec (script impl : String) : String :=
+  match trSpecLoop (script.splitOn ",") (impl.splitOn "|") 0 ⟨[], [], none⟩ with
+  | some v => v
+  | none => impl
+
+def handleTransport (args : List String) : Option String :=
+  match args with
+  | [script, impl] => some (transportModel script ++ "\t" ++ transportSpec script impl)
+  | _ => some "bad-op"
+
 /-! ## getTransport: the model of a sequence of locked regions; race-detector ops have the model outcome `clean` -/
 
 def handle (op : String) (args : Array String) : Option String :=
@@ -289,6 +503,8 @@ def handle (op : String) (args : Array String) : Option String :=
   | "dns_size0" => handleDns args.toList
   | "fetch" => handleFetch true args.toList
   | "fetchbig" => handleFetch false args.toList
+  | "fetch2" => handleFetch2 args.toList
+  | "transport" => handleTransport args.toList
   | "race_dns" | "race_fetch" | "race_transport" | "race_event_readonly" | "race_eventid" => some "clean\tclean"
   | _ => none
 
